@@ -155,7 +155,8 @@ type Result struct {
 	Exhaustive    bool           `json:"exhaustive,omitempty"`
 	Notes         []string       `json:"notes,omitempty"`
 
-	seen map[[8]byte]struct{}
+	seen     map[[8]byte]struct{}
+	perClass map[string]int
 }
 
 func NewResult(prop, tier string, seed uint64) *Result {
@@ -185,8 +186,15 @@ func (r *Result) Sample(s string) {
 		r.Samples = append(r.Samples, s)
 	}
 }
+// Violate records a property violation found on the implementation; at most 3 witnesses per class are kept
+// (so that a frequent known class cannot crowd out a new one), counts per class go to the distribution.
 func (r *Result) Violate(class, what string, ops []string) {
-	if len(r.Violations) < 200 {
+	r.Distribution["violation:"+class]++
+	if r.perClass == nil {
+		r.perClass = map[string]int{}
+	}
+	if r.perClass[class] < 3 && len(r.Violations) < 600 {
+		r.perClass[class]++
 		r.Violations = append(r.Violations, Violation{Class: class, What: what, Ops: ops})
 	}
 }
